@@ -12,7 +12,7 @@ message number inherits nothing.
 from __future__ import annotations
 
 PROP = "C13"
-RULES = ("C13.", "C01.flush-mismatch", "C01.final-view", "C02.uid-assignment", "C04.final-flags", "C04.stale-cache",
+RULES = ("C13.", "C01.flush-mismatch", "C01.final-view", "C02.uid-assignment", "C02.copyuid", "C02.appenduid", "C04.final-flags", "C04.stale-cache",
          "C05.message-multiset", "C03.uid-content")
 
 
@@ -76,6 +76,11 @@ def s_scenarios():
         if name == "deliver-in-expunge":
             pre = sel + [{"s": "A", "op": "store", "set": "2", "mode": "+", "flags": "\\Deleted"}, {"s": "B", "op": "noop"}]
         out.append(dict(base, name=name, prelude=pre, concurrent={"A": [dict(a, s="A")], "B": [{"s": "B", "op": "noop"}]}))
+    # a delivery into the *destination* (which nobody has selected) while COPY / MOVE write into it
+    env_o = [{"s": "env", "op": "deliver", "m": "other", "unseen": True, "cids": ["dE2"]}]
+    for name, a in [("deliver-into-dst-in-copy", {"op": "copy", "set": "1:2", "dst": "other"}),
+                    ("deliver-into-dst-in-move", {"op": "move", "set": "1", "dst": "other"})]:
+        out.append(dict(base, name=name, env=env_o, prelude=list(sel), qbound=1, concurrent={"A": [dict(a, s="A")], "B": [{"s": "B", "op": "noop"}]}))
     return out
 
 
@@ -101,7 +106,7 @@ def run(tier, seed, jobs):
 
     per = []
     for sc in s_scenarios():
-        r = sched.explore(sc, 2 if tier == "quick" else 3, jobs, seed, max_exec=30000 if tier == "quick" else 400000)
+        r = sched.explore(sc, sc.get("qbound", 2) if tier == "quick" else sc.get("qbound", 2) + 1, jobs, seed, max_exec=30000 if tier == "quick" else 80000)
         for f in r["failures"]:
             f.rule = f.rule.replace("C10.", "C13.")
         res.failures.extend(r["failures"])
